@@ -174,6 +174,9 @@ func stepXattr(mask int, ep int) {
 		switch {
 		case bodyGiven:
 			verifAssert(verifBytesEq(post.Value, a.body), "body stored as given")
+			if a.body != nil {
+				verifAssert(post.IsJSON == 1, "a body written through the xattr entry points is a JSON document (whatever the flag of the version it replaces)")
+			}
 		case bodyDeleted:
 			verifAssert(post.Value == nil, "body removed")
 		default:
